@@ -29,6 +29,7 @@
 #include <stdlib.h>
 #include <string.h>
 #include <stdio.h>
+#include <limits.h>
 #include <math.h>
 #include <float.h>
 
@@ -2049,7 +2050,10 @@ int cif_value_parse_numb(cif_value_tp *n, UChar *text) {
 
         exp_start = pos;
         while ((text[pos] >= UCHAR_0) && (text[pos] <= UCHAR_9)) {
-            exponent = (int) ((exponent * 10) + (text[pos] - UCHAR_0));
+            /* saturate rather than overflow: such exponents are far outside the range of any supported number format */
+            if (exponent < ((INT_MAX / 10) - 1)) {
+                exponent = (int) ((exponent * 10) + (text[pos] - UCHAR_0));
+            }
             pos += 1;
         }
         if (pos <= exp_start) {
